@@ -179,6 +179,27 @@ impl CommonDeriveInput {
     }
 }
 
+/// Returns the bounds of a type parameter, both those written inline and
+/// those written in the where clause.
+fn param_bounds(
+    generics: &syn::Generics,
+    t: &syn::TypeParam,
+) -> Punctuated<syn::TypeParamBound, token::Plus> {
+    let mut bounds = t.bounds.clone();
+    if let Some(where_clause) = &generics.where_clause {
+        for predicate in &where_clause.predicates {
+            if let WherePredicate::Type(pt) = predicate {
+                if pt.lifetimes.is_none()
+                    && pt.bounded_ty.to_token_stream().to_string() == t.ident.to_string()
+                {
+                    bounds.extend(pt.bounds.iter().cloned());
+                }
+            }
+        }
+    }
+    bounds
+}
+
 /// Return whether the struct has attributes `repr(C)`, `zero_copy`, and `deep_copy`.
 ///
 /// Performs coherence checks (e.g., to be `zero_copy` the struct must be `repr(C)`).
@@ -382,7 +403,8 @@ pub fn epserde_derive(input: TokenStream) -> TokenStream {
                     // Note that types_with_generics contains also field types
                     // *containing* a type parameter, but that just slows down
                     // the search.
-                    if ! t.bounds.is_empty() &&
+                    let bounds = param_bounds(&derive_input.generics, t);
+                    if ! bounds.is_empty() &&
                         types_with_generics.iter().any(|x| *ty == x.to_token_stream().to_string()) {
 
                         // Add a lifetime so we express bounds on DeserType
@@ -411,7 +433,7 @@ pub fn epserde_derive(input: TokenStream) -> TokenStream {
                                     <#ty as epserde::deser::DeserializeInner>::DeserType<'epserde_desertype>
                                 ),
                                 colon_token: token::Colon::default(),
-                                bounds: t.bounds.clone(),
+                                bounds: bounds.clone(),
                         }));
                         }
                         // Add the type bounds to the SerType
@@ -423,7 +445,7 @@ pub fn epserde_derive(input: TokenStream) -> TokenStream {
                                     <#ty as epserde::ser::SerializeInner>::SerType
                                 ),
                                 colon_token: token::Colon::default(),
-                                bounds: t.bounds.clone(),
+                                bounds: bounds.clone(),
                         }));
                     }
                 }
@@ -761,7 +783,8 @@ pub fn epserde_derive(input: TokenStream) -> TokenStream {
             derive_input.generics.params.iter().for_each(|param| {
                 if let GenericParam::Type(t) = param {
                     let ty = &t.ident;
-                    if !t.bounds.is_empty()
+                    let bounds = param_bounds(&derive_input.generics, t);
+                    if !bounds.is_empty()
                         && types_with_generics
                             .iter()
                             .any(|x| *ty == x.to_token_stream().to_string())
@@ -793,7 +816,7 @@ pub fn epserde_derive(input: TokenStream) -> TokenStream {
                                         <#ty as epserde::deser::DeserializeInner>::DeserType<'epserde_desertype>
                                     ),
                                     colon_token: token::Colon::default(),
-                                    bounds: t.bounds.clone(),
+                                    bounds: bounds.clone(),
                                 }));
                         }
                         where_clause_ser
@@ -804,7 +827,7 @@ pub fn epserde_derive(input: TokenStream) -> TokenStream {
                                     <#ty as epserde::ser::SerializeInner>::SerType
                                 ),
                                 colon_token: token::Colon::default(),
-                                bounds: t.bounds.clone(),
+                                bounds: bounds.clone(),
                             }));
                     }
                 }
